@@ -329,7 +329,7 @@ def run_history(rec, kind, rnd, cycles, case):
             dut, callers, targets, info = make(rnd)
             # a second, competing caller of the transformer's (exclusive) method in half of the histories: one caller is served per cycle
             rival = None
-            if case.get("rep", 0) % 2 == 1 and len(callers) == 1 and not kind.startswith("nonex") and not getattr(dut, "use_condition", False):
+            if case.get("rep", 0) % 2 == 1 and len(callers) == 1 and "nonexclusive" not in kind.lower() and not getattr(dut, "use_condition", False):
                 rival = AdapterTrans.create(callers[0].iface)
                 rec.count("histories_with_rival_caller")
             circ = Circ(dut, callers + ([rival] if rival is not None else []), targets)
